@@ -332,7 +332,13 @@ def write_file(channel, header_lines, recs, scheme, names, mode, tmp, header_obj
         written.append((str(rec), [enc_val(v) for v in rec.column_values()]))
         noncanon.append([not_canonical(c) for c in rec.values()] if (touch is not None and scheme is not None) else None)
         w += rec
-    w.close()
+    # the caller owns the handle of the handle channels: a non-sorting writer has passed every record on when write()
+    # returned, so a caller that reads its handle without ever closing the writer (a with-block around the handle, a
+    # StringIO read by getvalue()) sees the whole file
+    if channel in ("handle", "ctor") and pick % 3 == 0 and getattr(w, "_sorter", None) is None:
+        keep.setdefault("text", buf.getvalue())
+    else:
+        w.close()
     write_file.last_written = written
     write_file.last_noncanonical = noncanon
     if channel in ("handle", "ctor"):
